@@ -549,6 +549,76 @@ def r01_7(chk, P):
     return n
 
 
+def r01_8(chk, P):
+    chk.rule('R01.8', 'saturated search hints only widen the search: the codeword decoder bisects between two bounds it unpacks from a '
+             'table word (the loop guarded by hi-lo>1).  The packer saturates each hint field from above (a store of the constant '
+             'under a `>` test against it), so a decoded LOWER bound must not decrease when its field saturates -- it is the field '
+             'with a non-negative coefficient -- and a decoded UPPER bound must not decrease either: it has to be "count minus '
+             'field", a negative coefficient on the field (linear forms of the unpacking expressions; bit-slices of the table '
+             'word are the atoms).  An upper bound stored as itself is pulled below the codeword by the saturation for every '
+             'book with more used entries than the field can hold, and those codewords decode to the wrong entry')
+    from fractions import Fraction
+    n = 0
+    for F in P.functions():
+        if not F.file.endswith('codebook.c'):
+            continue
+        # the bisection: a loop whose guard is (U - L > c)
+        for h, body in cfg.loops(F).items():
+            t = F.blocks[h].get('term') or {}
+            c = t.get('cond')
+            if c is None:
+                continue
+            cn = F.ex[F.strip_casts(c)]
+            if not (cn['k'] == 'bin' and cn['op'] == '>'):
+                continue
+            d = F.ex[F.strip_casts(cn['c'][0])]
+            if not (d['k'] == 'bin' and d['op'] == '-'):
+                continue
+            u, l = F.ex[F.strip_casts(d['c'][0])], F.ex[F.strip_casts(d['c'][1])]
+            if not (u['k'] == 'ref' and l['k'] == 'ref' and u['decl'].get('kind') == 'var' and l['decl'].get('kind') == 'var'):
+                continue
+            uid, lid = u['decl']['id'], l['decl']['id']
+
+            def lin(e):
+                """{atom text: coefficient} with bit-slices (x & mask, x >> k & mask) as atoms; None if not linear"""
+                nd = F.ex[F.strip_casts(e)]
+                if nd['k'] == 'int':
+                    return {1: Fraction(nd['v'])}
+                if nd['k'] == 'bin' and nd['op'] in ('+', '-'):
+                    a, b = lin(nd['c'][0]), lin(nd['c'][1])
+                    if a is None or b is None:
+                        return None
+                    out = dict(a)
+                    for k_, v in b.items():
+                        out[k_] = out.get(k_, 0) + (v if nd['op'] == '+' else -v)
+                    return out
+                if nd['k'] == 'bin' and nd['op'] == '&':
+                    return {'slice:' + F.s(F.strip_casts(e), names=False): Fraction(1)}
+                if nd['k'] in ('member', 'ref', 'sub'):
+                    return {'val:' + F.s(F.strip_casts(e), names=False): Fraction(1)}
+                return None
+            for vid, want_sign, role in ((lid, 1, 'lower'), (uid, -1, 'upper')):
+                for e in sorted(F.nodes('assign'), key=lambda x: F.ex[x].get('loc') or [0, 0]):
+                    nd = F.ex[e]
+                    lhs = F.ex[F.strip_casts(nd['c'][0])]
+                    if nd['op'] != '=' or lhs['k'] != 'ref' or lhs['decl'].get('id') != vid or F.pos[e][0] in body:
+                        continue
+                    lf = lin(nd['c'][1])
+                    if lf is None:
+                        continue
+                    sl = {k_: v for k_, v in lf.items() if isinstance(k_, str) and k_.startswith('slice:')}
+                    if not sl:
+                        continue
+                    ok = all((v > 0) == (want_sign > 0) for v in sl.values())
+                    n += 1
+                    chk.ob('R01.8', F.name, f'{role}-bound-hint-widens-under-saturation@{F.loc(e)}', ok, F.where(e),
+                           f'`{F.s(e)}`: the {role} bound moves {"up" if want_sign > 0 else "down"} with its hint field' if ok else
+                           f'`{F.s(e)}`: the {role} bound is taken from the hint field with the wrong sign: when the packer saturates the '
+                           'field (books with more used entries than it can hold) the bound moves inside the range that holds the '
+                           'codeword')
+    return n
+
+
 def run(chk, P):
     chk.rule('R01.1', 'for every specification section with a bit layout the sequence of field widths in the TeX source '
              '(document order, consecutive duplicates collapsed, computed widths as V) is a linearisation of the reader '
@@ -567,6 +637,8 @@ def run(chk, P):
     chk.floor('R01.6', 1)
     r01_7(chk, P)
     chk.floor('R01.7', 1)
+    r01_8(chk, P)
+    chk.floor('R01.8', 2)
     chk.notes.append(f'R01.2 compared {ncon} table constants')
     chk.trusted += ['clang 14 front end and constant evaluator', 'the specification sources doc/*.tex of the repository are the oracle',
                     'width extraction from the TeX text (engine/spec.py) recognises the phrasings used in the pinned documents; '
